@@ -280,6 +280,9 @@ def message_pass(seq, part, flavour_transport=True):
         part.violate('C04.terminates', 'C04.terminates | message | %s' % ('empty-message' if not r else 'message-of-%d-bytes' % len(r)), 'receive_data(msg, 0) exceeded its yield budget on message %r; items %s' % (r[:16], tag), wit)
     except Watchdog:
         part.violate('C04.terminates', 'C04.terminates | message | %s' % ('empty-message' if not r else 'message-of-%d-bytes' % len(r)), 'receive_data(msg, 0) did not terminate on message %r; items %s' % (r[:16], tag), wit)
+    except Exception as e:
+        part.violate('C04.decoder-exception', 'C04.decoder-exception | message | %s | %s' % (type(e).__name__, kind_of(seq)),
+                     'receive_data(msg, 0) raised %r on message %r; items %s' % (e, r[:16], tag), wit)
     finally:
         disarm_watchdog()
     if not flavour_transport:
